@@ -16,24 +16,13 @@ the requested `merged_` keys are distinct (they are the keys of a Go map).
 
 * `key o r`            : (nucleotide string, values of the category attributes with NA for missing ones)
 * `classOf o input κ`  : the input records with key `κ`
+* `InputOK`, `mweight` : `Lemmas/Uniq.lean`
 * `contrib na k r v`   : weight record `r` brings to value `v` of `merged_<k>` — the weight of `v` in its own
                          `merged_<k>` map if it carries one (`contrib_some`), else its count if its value of
                          attribute `k` (NA when absent) is `v` and 0 otherwise (`contrib_none`)
 -/
 namespace ObiVerif.Props.C06
 open ObiVerif.Uniq
-
-structure InputOK (o : Opts) (input : List Rec) : Prop where
-  stats_nodup : o.stats.Nodup
-  counts : ∀ r ∈ input, 1 ≤ r.count
-  wf : ∀ r ∈ input, r.WF
-
-theorem InputOK.perm {o : Opts} {input input' : List Rec} (ok : InputOK o input) (hp : input'.Perm input) :
-    InputOK o input' :=
-  ⟨ok.stats_nodup, fun r hr => ok.counts r (hp.mem_iff.mp hr), fun r hr => ok.wf r (hp.mem_iff.mp hr)⟩
-
-/-- the weight the `merged_<k>` map of `r` gives to `v` (0 if `r` has no such map) -/
-def mweight (r : Rec) (k v : String) : Nat := weight ((r.merged.lookup k).getD []) v
 
 /-- every output record is the merge of the whole class of its key (and of nothing else) -/
 theorem uniq_isOutput (h : Seq → Nat) (o : Opts) (input : List Rec) (ok : InputOK o input) :
@@ -68,9 +57,6 @@ theorem uniq_annotations (h : Seq → Nat) (o : Opts) (input : List Rec) (ok : I
   fun out hout => ⟨(uniq_isOutput h o input ok out hout).attrs, (uniq_isOutput h o input ok out hout).rep⟩
 
 /-! ## uniq_keys -/
-
-theorem not_dropped_of_all {o : Opts} (hns : o.noSingleton = false) (t : List Rec) : dropped o t = false := by
-  simp [dropped, hns]
 
 /-- without `--no-singleton`: exactly one output record per distinct key of the input -/
 theorem uniq_keys (h : Seq → Nat) (o : Opts) (input : List Rec) (ok : InputOK o input)
@@ -113,7 +99,8 @@ theorem uniq_keys (h : Seq → Nat) (o : Opts) (input : List Rec) (ok : InputOK 
 
 /-! ## uniq_total -/
 
-theorem total_uniq_all (h : Seq → Nat) (o : Opts) (input : List Rec) (ok : InputOK o input)
+/-- the total count is conserved -/
+theorem uniq_total (h : Seq → Nat) (o : Opts) (input : List Rec) (ok : InputOK o input)
     (hns : o.noSingleton = false) : total (uniq h o input) = total input := by
   obtain ⟨_, _, _, hperm⟩ := terminals_classes h o input
   have e : (terminals h o input).filter (fun b => !dropped o b) = terminals h o input :=
@@ -126,11 +113,6 @@ theorem total_uniq_all (h : Seq → Nat) (o : Opts) (input : List Rec) (ok : Inp
   · intro t ht
     obtain ⟨out, hm, _, _, hc⟩ := terminal_output h o input ok.stats_nodup ok.counts ok.wf t ht
     exact ⟨out, hm, hc⟩
-
-/-- the total count is conserved -/
-theorem uniq_total (h : Seq → Nat) (o : Opts) (input : List Rec) (ok : InputOK o input)
-    (hns : o.noSingleton = false) : total (uniq h o input) = total input :=
-  total_uniq_all h o input ok hns
 
 /-- `--no-singleton` removes from the output exactly the records of count 1, i.e. (by `uniq_count`)
 exactly the classes whose total count is 1 -/
@@ -165,23 +147,13 @@ theorem uniq_noSingleton (h : Seq → Nat) (o : Opts) (input : List Rec) (ok : I
   rw [this] at hm'; cases hm'
   rw [hc]
 
-theorem total_filter_split (l : List Rec) :
-    total (l.filter (fun out => decide (out.count ≠ 1))) +
-      (l.filter (fun out => decide (out.count = 1))).length = total l := by
-  induction l with
-  | nil => rfl
-  | cons x t ih =>
-    by_cases hx : x.count = 1
-    · simp [hx, total] at ih ⊢; omega
-    · simp [hx, total] at ih ⊢; omega
-
 /-- with `--no-singleton` the total count is conserved minus one per class of total count 1 -/
 theorem uniq_total_noSingleton (h : Seq → Nat) (o : Opts) (input : List Rec) (ok : InputOK o input) :
     total (uniq h { o with noSingleton := true } input) +
       ((uniq h { o with noSingleton := false } input).filter (fun out => decide (out.count = 1))).length =
     total input := by
   rw [uniq_noSingleton h o input ok, total_filter_split]
-  exact total_uniq_all h { o with noSingleton := false } input
+  exact uniq_total h { o with noSingleton := false } input
     ⟨ok.stats_nodup, ok.counts, ok.wf⟩ rfl
 
 /-! ## uniq_perm -/
@@ -193,9 +165,6 @@ def ObsEq (o : Opts) (a b : Rec) : Prop :=
   a.seq = b.seq ∧ key o a = key o b ∧ a.count = b.count ∧
   (∀ k ∈ o.stats, ∀ v, mweight a k v = mweight b k v) ∧
   (∀ kv, kv ∈ a.attrs ↔ kv ∈ b.attrs)
-
-theorem classOf_perm (o : Opts) {input input' : List Rec} (hp : input'.Perm input) (κ : Seq × List String) :
-    (classOf o input' κ).Perm (classOf o input κ) := hp.filter _
 
 /-- the set of observable output records does not depend on the order of the input nor on the chunk
 function (chunk count): every output of one run has an observably equal output in the other
